@@ -67,6 +67,8 @@ Section W.
   Variable lim : nat.
   Hypothesis Hschema : json_schema_ok S nm = true.
   Hypothesis Hcore2 : json_core2 S nm = true.
+  Hypothesis Hts : forall s n, ts_in_range s n = true -> ts_parse cd (ts_fmt cd s n) = Some (s, n).
+  Hypothesis Hdur : forall s n, dur_in_range s n = true -> dur_parse cd (dur_fmt cd s n) = Some (s, n).
 
   Variable recv : nat -> value -> bool.
   Variable rect : nat -> value -> jres jv.
@@ -86,6 +88,7 @@ Section W.
     no_special_groups nm fps = true /\
     match wkt_of nm tid with
     | 0 => True
+    | 2 | 3 => secs_nanos_shape fps = true
     | 4 => wrapper_shape fps = true
     | 5 => struct_shape nm fps = true
     | 6 => listvalue_shape nm fps = true
@@ -97,12 +100,13 @@ Section W.
     intros Hlt fps. unfold json_core2 in Hcore2. rewrite forallb_forall in Hcore2.
     assert (H := Hcore2 tid ltac:(apply in_seq; lia)). cbn zeta in H. fold fps in H.
     apply andb_prop in H. destruct H as [Hg H]. split; [exact Hg|].
-    destruct (wkt_of nm tid) as [|[[[|[]|]|[[]|[]|]|]|[[|[]|]|[|[]|]|]|]]; try discriminate; try exact I; try exact H.
+    destruct (wkt_of nm tid) as [|p]; [exact I|].
+    do 4 (try destruct p as [p|p|]); try discriminate; try exact H.
     destruct fps; [reflexivity|discriminate].
   Qed.
 
   Lemma core2_cases tid : (tid < length S)%nat ->
-    wkt_of nm tid = 0 \/ wkt_of nm tid = 4 \/ wkt_of nm tid = 5 \/ wkt_of nm tid = 6 \/ wkt_of nm tid = 7 \/ wkt_of nm tid = 9.
+    wkt_of nm tid = 0 \/ wkt_of nm tid = 2 \/ wkt_of nm tid = 3 \/ wkt_of nm tid = 4 \/ wkt_of nm tid = 5 \/ wkt_of nm tid = 6 \/ wkt_of nm tid = 7 \/ wkt_of nm tid = 9.
   Proof.
     intros Hlt. destruct (core2_at tid Hlt) as [_ H].
     destruct (wkt_of nm tid) as [|p]; [auto|].
@@ -227,6 +231,55 @@ Section W.
       exists j. split; [exact Hj|]. split.
       + destruct (is_jnull j) eqn:En; [|reflexivity]. destruct (Hn eq_refl) as [E _]. contradiction.
       + rewrite Hd. cbn [jbind]. rewrite Hnz. reflexivity.
+  Qed.
+
+  (* ---- Timestamp and Duration ---- *)
+  Lemma secs_nanos_fs tid fs :
+    (tid < length S)%nat -> wkt_of nm tid = 2 \/ wkt_of nm tid = 3 ->
+    msg_keys_sorted 0 fs = true -> forallb (jvalid_chunk nm recv (rt_fields S nm tid)) fs = true ->
+    map sp fs = fs /\ fs = set_nz (set_nz [] 1 (get_z fs 1)) 2 (get_z fs 2).
+  Proof.
+    intros Hlt Hw Hs Hc. destruct (core2_at tid Hlt) as [_ Hshape].
+    assert (Hsh : secs_nanos_shape (rt_fields S nm tid) = true) by (destruct Hw as [E|E]; rewrite E in Hshape; exact Hshape).
+    clear Hshape. apply msg_keys_sorted_spec in Hs.
+    pose proof (jchunks_of S nm recv tid fs Hc) as Hchunks.
+    unfold secs_nanos_shape in Hsh.
+    destruct (rt_fields S nm tid) as [|[f1 n1] [|[f2 n2] [|? ?]]]; try discriminate.
+    apply andb_prop in Hsh. destruct Hsh as [Hsh Hk]. apply andb_prop in Hsh. destruct Hsh as [Hsh _].
+    apply andb_prop in Hsh. destruct Hsh as [Hsh _]. apply andb_prop in Hsh. destruct Hsh as [N1 N2].
+    apply N.eqb_eq in N1, N2.
+    destruct (f_card f1) eqn:C1; try discriminate. destruct (f_kind f1) as [[]| |] eqn:K1; try discriminate.
+    destruct (f_card f2) eqn:C2; try discriminate. destruct (f_kind f2) as [[]| |] eqn:K2; try discriminate.
+    assert (Hentry : forall k vs, In (k, vs) fs -> (k = 1 \/ k = 2) /\ exists z, z <> 0%Z /\ vs = [VS (SZ z)]).
+    { intros k vs Hin. destruct (Hchunks k vs Hin) as (p & Hp & Hk' & Hv). unfold fp_num in Hk'.
+      destruct Hp as [<-|[<-|[]]]; cbn [fst snd] in *; unfold jvalid_field in Hv.
+      - rewrite C1 in Hv. destruct vs as [|[s| |] [|? ?]]; try discriminate.
+        apply andb_prop in Hv. destruct Hv as [Hv Hnz]. unfold jvalid_elem in Hv. rewrite K1 in Hv.
+        unfold json_scalar_ok, rt_scalar_ok in Hv. destruct s as [z| | |]; cbn [sk_ok andb] in Hv; try discriminate.
+        split; [left; lia|]. exists z. split; [|reflexivity]. intros ->. discriminate.
+      - rewrite C2 in Hv. destruct vs as [|[s| |] [|? ?]]; try discriminate.
+        apply andb_prop in Hv. destruct Hv as [Hv Hnz]. unfold jvalid_elem in Hv. rewrite K2 in Hv.
+        unfold json_scalar_ok, rt_scalar_ok in Hv. destruct s as [z| | |]; cbn [sk_ok andb] in Hv; try discriminate.
+        split; [right; lia|]. exists z. split; [|reflexivity]. intros ->. discriminate. }
+    destruct fs as [|[k1 v1] [|[k2 v2] [|[k3 v3] r]]].
+    - split; reflexivity.
+    - destruct (Hentry _ _ (or_introl eq_refl)) as ([K|K] & z & Hz & ->); subst k1.
+      + split; [reflexivity|]. unfold get_z, set_nz. cbn [msg_fget N.eqb Pos.eqb].
+        destruct (z =? 0)%Z eqn:E; [apply Z.eqb_eq in E; contradiction|]. reflexivity.
+      + split; [reflexivity|]. unfold get_z, set_nz. cbn [msg_fget N.eqb Pos.eqb].
+        destruct (z =? 0)%Z eqn:E; [apply Z.eqb_eq in E; contradiction|]. reflexivity.
+    - destruct (Hentry _ _ (or_introl eq_refl)) as (K1' & z1 & Hz1 & ->).
+      destruct (Hentry _ _ (or_intror (or_introl eq_refl))) as (K2' & z2 & Hz2 & ->).
+      cbn [msg_sorted fst] in Hs. destruct Hs as (_ & Hlt' & _).
+      assert (k1 = 1 /\ k2 = 2) as [-> ->] by lia.
+      split; [reflexivity|]. unfold get_z, set_nz. cbn [msg_fget N.eqb Pos.eqb].
+      destruct (z1 =? 0)%Z eqn:E1; [apply Z.eqb_eq in E1; contradiction|].
+      destruct (z2 =? 0)%Z eqn:E2; [apply Z.eqb_eq in E2; contradiction|]. reflexivity.
+    - exfalso.
+      destruct (Hentry _ _ (or_introl eq_refl)) as (K1' & _).
+      destruct (Hentry _ _ (or_intror (or_introl eq_refl))) as (K2' & _).
+      destruct (Hentry _ _ (or_intror (or_intror (or_introl eq_refl)))) as (K3' & _).
+      cbn [msg_sorted fst] in Hs. destruct Hs as (_ & Hl1 & Hl2 & _). lia.
   Qed.
 
   (* ---- Struct and ListValue ---- *)
@@ -380,6 +433,8 @@ Section WMain.
   Variable lim : nat.
   Hypothesis Hschema : json_schema_ok S nm = true.
   Hypothesis Hcore2 : json_core2 S nm = true.
+  Hypothesis Hts : forall s n, ts_in_range s n = true -> ts_parse cd (ts_fmt cd s n) = Some (s, n).
+  Hypothesis Hdur : forall s n, dur_in_range s n = true -> dur_parse cd (dur_fmt cd s n) = Some (s, n).
 
   Theorem json_roundtrip_wkt : forall fuel tid v,
     json_valid2 true (o_emit_unpop o) S nm fuel tid v = true ->
@@ -387,7 +442,7 @@ Section WMain.
               of_json_msg cd S nm fuel tid j = JOk (strip_unknown v).
   Proof.
     induction fuel as [|f IH]; intros tid v H; [discriminate|].
-    cbn [json_valid2] in H. apply andb_prop in H. destruct H as [H Hextra].
+    cbn [json_valid2] in H. apply andb_prop in H. destruct H as [H Hrange]. apply andb_prop in H. destruct H as [H Hextra].
     apply andb_prop in H. destruct H as [Hlt Hb]. apply Nat.ltb_lt in Hlt.
     cbn [to_json_msg of_json_msg].
     set (recv := json_valid2 true (o_emit_unpop o) S nm f) in *.
@@ -399,13 +454,31 @@ Section WMain.
     apply andb_prop in Hb. destruct Hb as [Hb Hf11]. apply andb_prop in Hb. destruct Hb as [Hb Ho].
     apply andb_prop in Hb. destruct Hb as [Hs Hc].
     unfold json_msg_body, of_json_body. change (mn_wkt (nm_msg nm tid)) with (wkt_of nm tid) in *.
-    destruct (core2_cases S nm Hcore2 recv rect recd IH tid Hlt) as [E|[E|[E|[E|[E|E]]]]]; rewrite E in *; cbn iota.
+    destruct (core2_cases S nm Hcore2 recv rect recd IH tid Hlt) as [E|[E|[E|[E|[E|[E|[E|E]]]]]]]; rewrite E in *; cbn iota.
     - (* ordinary *)
       change (strip_unknown (VMsg fs unk)) with (VMsg (map sp fs) []).
       destruct (json_ordinary_rt cd Hb64 o S nm Hschema recv rect recd Hrec1 tid fs Hlt) as (ms & Hm & Hd); try assumption.
       { apply (groups_ok S nm Hcore2 recv rect recd IH tid Hlt). }
       rewrite Hm. cbn [jbind]. eexists. split; [reflexivity|]. split; [|exact Hd].
       split; [discriminate|]. split; discriminate.
+    - (* Timestamp *)
+      change (strip_unknown (VMsg fs unk)) with (VMsg (map sp fs) []).
+      destruct (secs_nanos_fs cd S nm Hcore2 Hts Hdur recv rect recd IH tid fs Hlt (or_introl E) Hs Hc) as [Hsp Hfs].
+      unfold json_timestamp, dec_timestamp. rewrite Hrange. eexists. split; [reflexivity|].
+      split; [split; [discriminate|split; discriminate]|].
+      rewrite (Hts _ _ Hrange). unfold ts_in_range in Hrange.
+      apply andb_prop in Hrange. destruct Hrange as [Hr _]. apply andb_prop in Hr. destruct Hr as [Hr _]. rewrite Hr.
+      rewrite Hsp. rewrite Hfs at 3. reflexivity.
+    - (* Duration *)
+      change (strip_unknown (VMsg fs unk)) with (VMsg (map sp fs) []).
+      destruct (secs_nanos_fs cd S nm Hcore2 Hts Hdur recv rect recd IH tid fs Hlt (or_intror E) Hs Hc) as [Hsp Hfs].
+      unfold json_duration, dec_duration. rewrite Hrange. eexists. split; [reflexivity|].
+      split; [split; [discriminate|split; discriminate]|].
+      assert (Hr2 : ((- max_dur_secs <=? get_z fs 1) && (get_z fs 1 <=? max_dur_secs))%Z = true).
+      { unfold dur_in_range in Hrange. repeat (apply andb_prop in Hrange; destruct Hrange as [Hrange ?]).
+        rewrite Hrange. assumption. }
+      rewrite (Hdur _ _ Hrange), Hr2.
+      rewrite Hsp. rewrite Hfs at 3. reflexivity.
     - (* wrapper *)
       change (strip_unknown (VMsg fs unk)) with (VMsg (map sp fs) []).
       destruct (wrapper_rt cd Hb64 o S nm lim Hcore2 recv rect recd IH tid fs Hlt E Hs Hc) as (j & Hj & Hnn & Hd).
@@ -439,27 +512,32 @@ Section WMain.
 End WMain.
 
 Theorem json_roundtrip_wkt_except_F11_partial cd (o : jopts) S nm lim fuel tid v :
-  (forall bs, b64_dec cd (b64_enc cd bs) = Some bs) ->
+  codec_ok cd ->
   json_schema_ok S nm = true -> json_core2 S nm = true ->
   json_valid2 true (o_emit_unpop o) S nm fuel tid v = true ->
   exists j, to_json cd o S nm lim fuel tid v = JOk j /\ of_json cd S nm fuel tid j = JOk (strip_unknown v).
 Proof.
-  intros Hb Hs Hc Hv.
-  destruct (json_roundtrip_wkt cd Hb (jo_tree o) S nm lim Hs Hc fuel tid v Hv) as (j & Hj & _ & Hd).
+  intros (Hb & Ht & Hd0) Hs Hc Hv.
+  destruct (json_roundtrip_wkt cd Hb (jo_tree o) S nm lim Hs Hc Ht Hd0 fuel tid v Hv) as (j & Hj & _ & Hd).
   exists j. split; assumption.
 Qed.
 
-(* with the executable codec of Json/JsonWktLite.v the base64 hypothesis is discharged (Json/JsonB64P.v) *)
+(* with the executable codec of Json/JsonWktLite.v the base64 hypothesis is discharged (Json/JsonB64P.v);
+   the Timestamp / Duration string forms remain hypotheses (C23) *)
 From PB Require Import Json.JsonWktLite Json.JsonB64P.
 
 Theorem json_roundtrip_std_except_F11_partial (o : jopts) S nm lim fuel tid v :
+  (forall s n, ts_in_range s n = true -> ts_parse_canon (ts_format s n) = Some (s, n)) ->
+  (forall s n, dur_in_range s n = true -> dur_parse_s (dur_format s n) = Some (s, n)) ->
   json_schema_ok S nm = true -> json_core2 S nm = true ->
   json_valid2 true (o_emit_unpop o) S nm fuel tid v = true ->
   exists j, to_json std_codec o S nm lim fuel tid v = JOk j /\ of_json std_codec S nm fuel tid j = JOk (strip_unknown v).
-Proof. apply json_roundtrip_wkt_except_F11_partial. exact std_codec_b64. Qed.
+Proof.
+  intros Ht Hd. apply json_roundtrip_wkt_except_F11_partial. split; [exact std_codec_b64|]. split; assumption.
+Qed.
 
 Theorem json_marshal_total_wkt_partial cd (o : jopts) S nm lim fuel tid v :
-  (forall bs, b64_dec cd (b64_enc cd bs) = Some bs) ->
+  codec_ok cd ->
   json_schema_ok S nm = true -> json_core2 S nm = true ->
   json_valid2 true (o_emit_unpop o) S nm fuel tid v = true ->
   exists j, to_json cd o S nm lim fuel tid v = JOk j.
